@@ -83,7 +83,7 @@ async def run_single_call(StreamingHandler, case, unit, stop_before_disable):
         return {"event": False}
     if end == 2:
         await h.on_llm_end(None, run_id=RID)
-    await waiter
+    returned = await waiter
     h.set_pattern(prefix=case["prefix"], suffix=case["suffix"])
     for _ in range(b):
         await h.on_llm_new_token(cs[i], chunk=cs[i], run_id=RID)
@@ -104,7 +104,7 @@ async def run_single_call(StreamingHandler, case, unit, stop_before_disable):
     if end == 0:
         await h.on_llm_end(None, run_id=RID)
     items = await _drain(user)
-    return {"event": True, "items": items, "completion": h.completion, "finished": h.streaming_finished_event.is_set()}
+    return {"event": True, "items": items, "completion": h.completion, "finished": h.streaming_finished_event.is_set(), "returned": returned}
 
 
 async def run_direct(StreamingHandler, case, unit):
@@ -119,6 +119,15 @@ async def run_direct(StreamingHandler, case, unit):
     return {"items": items, "completion": h.completion, "finished": h.streaming_finished_event.is_set()}
 
 
+def _counts(line):
+    """a non-empty line that is not a comment: it has a non-blank character and the first one is not `#`
+    (blank = Unicode white space, as for str.strip())"""
+    for ch in line:
+        if not ch.isspace():
+            return ch != "#"
+    return False
+
+
 def rest_after_top_k(text, k):
     """the LLM text after its first k non-empty, non-comment lines (what generate_intent_steps_message leaves
     for the bot message); None if the k-th such line is not terminated"""
@@ -128,9 +137,20 @@ def rest_after_top_k(text, k):
         nl = text.find("\n", pos)
         if nl < 0:
             return None
-        line = text[pos:nl].strip(" \t\r\x0b\x0c")
+        line = text[pos:nl]
         pos = nl + 1
-        if line and not line.startswith("#"):
+        if _counts(line):
             found += 1
             if found == k:
                 return text[pos:]
+
+
+def top_k_lines(text, k):
+    """the first k non-empty, non-comment lines of the LLM text (what the intent parser is given)"""
+    out = []
+    for line in text.split("\n"):
+        if _counts(line):
+            out.append(line)
+            if len(out) == k:
+                break
+    return "\n".join(out)
